@@ -1024,6 +1024,7 @@ class Engine(ExprMixin, CallMixin):
                         sts = self.run_ghost(code, sts)
                 for s_ in sts:
                     self.check_post(contract, s_, o.value)
+                    self.emit(s_, z3.BoolVal(False), "canary", None, "exit-reachable")
             elif o.kind == "raise":
                 self.check_raise(contract, o)
             else:
